@@ -32,6 +32,8 @@ pub struct GenCfg
     pub p_notake: u32,
     /// probability (percent) that an ops step is run as a frame (plain system in `Update` + the rest of `App::update`)
     pub p_frame: u32,
+    /// probability (percent) that an ops step is direct world access (only when the alphabet has `x*` ops)
+    pub p_direct: u32,
     /// initial registration ops performed by the first driver step
     pub init: Vec<Op>,
 }
@@ -59,6 +61,7 @@ impl GenCfg
             p_err: v["p_err"].as_u64().unwrap_or(10) as u32,
             p_notake: v["p_notake"].as_u64().unwrap_or(30) as u32,
             p_frame: v["p_frame"].as_u64().unwrap_or(0) as u32,
+            p_direct: v["p_direct"].as_u64().unwrap_or(0) as u32,
             init: v["init"].as_array().map(|a| a.iter().map(Op::from_json).collect()).unwrap_or_default(),
         }
     }
@@ -159,6 +162,10 @@ impl Gen
                 "trig" => Op::Trig(self.ent(), self.ty()),
                 "rm" => Op::Rm(self.ent(), self.ty()),
                 "desp" => Op::Desp(self.ent()),
+                "desprec" => Op::DespRec(self.ent()),
+                "xdesp" => Op::XDesp(self.ent()),
+                "xdesprec" => Op::XDespRec(self.ent()),
+                "xrm" => Op::XRm(self.ent(), self.ty()),
                 "despsys" => Op::DespSys(self.sys(applied)),
                 "reg" =>
                 {
@@ -249,8 +256,19 @@ impl Gen
             if self.budget == 0 { self.budget = 1; }
             // between trees everything issued has been applied
             let applied = self.once_used.clone();
-            let ops = self.ops(false, false, 1, &applied);
-            if self.rng.gen_range(0..100) < self.g.p_frame { Step::Frame(ops) } else { Step::Ops(ops) }
+            let xops: Vec<String> = self.g.alphabet.iter().filter(|n| matches!(n.as_str(), "xdesp" | "xdesprec" | "xrm")).cloned().collect();
+            if !xops.is_empty() && self.rng.gen_range(0..100) < self.g.p_direct
+            {
+                let full = std::mem::replace(&mut self.g.alphabet, xops);
+                let ops = self.ops(false, false, 1, &applied);
+                self.g.alphabet = full;
+                Step::Direct(ops)
+            }
+            else
+            {
+                let ops = self.ops(false, false, 1, &applied);
+                if self.rng.gen_range(0..100) < self.g.p_frame { Step::Frame(ops) } else { Step::Ops(ops) }
+            }
         };
         self.steps_log.push(step.clone());
         Some(step)
